@@ -120,6 +120,18 @@ def fam5(n):
             yield (t, i)
 
 
+SHAPES = ["1e+5", "1E-5x", "0x1p+3", "0x1P-3", "1.5", ".5", "5.", "1.e+3f", "0x1F", "017", "1u", "1UL", "12_3", "1e+e", "1.2.3", "0xe+1", "e+1", "1 e+5",
+          "'a'", "'\\n'", "\"s t\"", "\"a\\\"b\"", "<<", ">>", "<=", ">=", "==", "!=", "&&", "||", "!", "~", "^", "&", "|", "%", "?", ":", "_a1", "a.b", "x1e+5"]
+
+
+def fam6():
+    """lexical shapes: every token class of the lexer (pp-numbers with exponents, literals, operators) as a macro argument:
+    identity, stringification, pasting and a neighbour that must not merge with it"""
+    for t in SHAPES:
+        for inv in (f"S({t})", f"I({t})", f"I({t}) e", f"C({t},1)", f"C(1,{t})", f"I({t}{t})", f"S({t} {t})", f"S(-{t})"):
+            yield (["S(x) #x", "I(x) x", "C(x,y) x ## y", "e 7"], inv)
+
+
 STD = [   # ISO C 6.10.3.5 examples 3, 4, 5, 7 (each judged in its own gcc run)
     (["x 3", "f(a) f(x * (a))", "g f", "z z[0]", "h g(~", "m(a) a(w)", "w 0,1", "t(a) a", "p() int", "q(x) x", "r(x,y) x ## y", "str(x) # x"],
      ["f(y+1) + f(f(z)) % t(t(g)(0) + t)(1);", "g(x+(3,4)-w) | h 5) & m (f)^m(m);", "p() i[q()] = { q(1), r(2,3), r(4,), r(,5), r(,) };",
@@ -359,10 +371,10 @@ def run(tier):
     rep = Report(ID, "exploration")
     if tier == "quick":
         fams = {"single F(x,y), bodies<=2": fam1(2), "F(x,y) bodies of 3..4 phrases over {x y ## 1 k +} + helper macros": fam1b(4), "F(x)+G(y), bodies<=2 (small alphabet)": fam2(2, True), "object-like A,B, bodies<=2": fam3(2),
-                "variadic, bodies<=2": fam4(2), "balanced invocations<=4 x 11 tables": fam5(4)}
+                "variadic, bodies<=2": fam4(2), "balanced invocations<=4 x 11 tables": fam5(4), "lexical shapes x 8 uses": fam6()}
     else:
         fams = {"single F(x,y), bodies<=3": fam1(3), "F(x,y) bodies of 3..5 phrases over {x y ## 1 k +} + helper macros": fam1b(5), "F(x)+G(y), bodies<=2": fam2(2, False), "object-like A,B, bodies<=3 (k=2 for B)": fam3(2),
-                "variadic, bodies<=3": fam4(3), "balanced invocations<=5 x 11 tables": fam5(5)}
+                "variadic, bodies<=3": fam4(3), "balanced invocations<=5 x 11 tables": fam5(5), "lexical shapes x 8 uses": fam6()}
     # seed-selected extension: fam1 bodies of length 3 starting with a seed-chosen phrase
     P = ["x", "y", "#x", "##", "1", "k", "+", "(x)", ",", "F(x,y)"]
     first = P[env.SEED % len(P)]
